@@ -232,6 +232,9 @@ func c14IcDrivers() []*icCfg {
 		// a slow secondary read of a copy whose deadline passes while the read is in progress
 		{Name: "I9-slow-read-vs-deadline", O: o, Hy: hy(1, 1, true), Pre: []icOp{{Kind: "set", K: 1, Cost: 1, TTL: sec}, T(2), W, Z}, Scripts: [][]icOp{{H(1)}, {{Kind: "adv", Arg: 2 * sec}}}, Post: []icOp{W, Z, H(1)}},
 		{Name: "I9L-loading-slow-read-vs-deadline", O: o, Hy: hy(1, 1, true), Loading: true, LoadCost: 1, LoadTTL: long, Pre: []icOp{{Kind: "set", K: 1, Cost: 1, TTL: sec}, T(2), W, Z}, Scripts: [][]icOp{{L(1)}, {{Kind: "adv", Arg: 2 * sec}}}, Post: []icOp{W, Z, L(1)}},
+		// a second lookup, begun after the Set has returned, may JOIN the first lookup's in-flight promotion (singleflight)
+		{Name: "I10-promote-vs-set-then-get", O: o, Hy: hy(1, 1, false), Pre: demoted, Scripts: [][]icOp{{H(1)}, {T(1), H(1)}}, Post: []icOp{W, Z, H(1)}},
+		{Name: "I10L-loading-promote-vs-set-then-get", O: o, Hy: hy(1, 1, false), Loading: true, LoadCost: 1, LoadTTL: long, Pre: demoted, Scripts: [][]icOp{{L(1)}, {T(1), L(1)}}, Post: []icOp{W, Z, L(1)}},
 		{Name: "I7-coin", O: o, Hy: hy(1, 0.5, false), Pre: demoted, Scripts: [][]icOp{{T(1), T(2)}, {H(1)}}, Post: []icOp{W, Z, H(1)}},
 	}
 }
